@@ -189,6 +189,16 @@ pub fn one_case(rng: &mut Rng, sink: &mut Sink, emit: bool) {
     let mut xot = Xot::new();
     let mut vocab = Vocab::standard(&mut xot);
     let mut cfg = GenCfg::default_cfg();
+    // attributes whose LOCAL name is `xmlns` in a real namespace (written p:xmlns="…", xml:xmlns="…"):
+    // ordinary attributes, not declarations (seed C01g)
+    let xn_a = vocab.add_name(&mut xot, "xmlns", NS_A);
+    let xn_x = vocab.add_name(&mut xot, "xmlns", 1);
+    if rng.chance(1, 4) {
+        cfg.attr_names.push(xn_a);
+        cfg.attr_names.push(xn_a);
+        cfg.attr_names.push(xn_x);
+        sink.stat("rt.vocabulary-with-local-name-xmlns");
+    }
     cfg.max_depth = 3 + rng.below(2);
     let fragment = rng.chance(1, 3);
     let mut t = if fragment { gen_fragment(rng, &cfg) } else { gen_document(rng, &cfg) };
